@@ -9,8 +9,8 @@ Open Scope Z_scope.
 Lemma core_ext w w' :
   Core w -> trace w' = trace w -> st w' = st w -> flag w' = flag w -> handed w' = handed w ->
   (pump w' = pump w \/ pump w' = false) ->
-  (has_disc (queue w') = true \/ (exists c, hand w' = Some (CDisc c)) ->
-   has_disc (queue w) = true \/ (exists c, hand w = Some (CDisc c))) ->
+  (has_disc (queue w') = true \/ (exists c r, hand w' = Some (CDisc c r)) ->
+   has_disc (queue w) = true \/ (exists c r, hand w = Some (CDisc c r))) ->
   Core w'.
 Proof.
   intros [m [Hm [Hst [Hfl Hdq]]]] Ht Hs Hf Hh Hp Hq. exists m.
@@ -21,7 +21,7 @@ Qed.
 
 Lemma core_stop w : Core w -> Core (set_pump false (set_hand None w)).
 Proof.
-  intro H. apply (core_ext w); auto. cbn. intros [A|[c A]]; [left; exact A | discriminate].
+  intro H. apply (core_ext w); auto. cbn. intros [A|[c [r A]]]; [left; exact A | discriminate].
 Qed.
 
 Lemma has_disc_app a b : has_disc (a ++ b) = has_disc a || has_disc b.
@@ -39,10 +39,10 @@ Proof. reflexivity. Qed.
 
 Lemma pull_spec cp : forall cl q q' h' rest f,
   pull cp q cl = (q', h', rest, f) ->
-  (has_disc q' = true \/ (exists c, h' = Some (CDisc c)) -> has_disc q = true \/ f <> None).
+  (has_disc q' = true \/ (exists c r, h' = Some (CDisc c r)) -> has_disc q = true \/ f <> None).
 Proof.
   induction cl as [|e r IH]; intros q q' h' rest f Hp.
-  - cbn in Hp. injection Hp as <- <- <- <-. intros [A|[c A]]; [left; exact A | discriminate].
+  - cbn in Hp. injection Hp as <- <- <- <-. intros [A|[c [rr A]]]; [left; exact A | discriminate].
   - rewrite pull_cons in Hp. destruct (length q <? cp)%nat.
     + destruct e as [n|n|c]; cbn in Hp.
       * intro A. destruct (IH _ _ _ _ _ Hp A) as [B|B]; [|right; exact B].
@@ -50,7 +50,7 @@ Proof.
       * intro A. destruct (IH _ _ _ _ _ Hp A) as [B|B]; [|right; exact B].
         rewrite has_disc_app in B. cbn in B. rewrite orb_false_r in B. left. exact B.
       * injection Hp as <- <- <- <-. intros _. right. discriminate.
-    + injection Hp as <- <- <- <-. intros [A|[c A]]; [left; exact A|].
+    + injection Hp as <- <- <- <-. intros [A|[c [rr A]]]; [left; exact A|].
       injection A as ->. right. cbn. discriminate.
 Qed.
 
@@ -66,7 +66,7 @@ Proof.
   { subst w1. destruct (hand w) as [e|] eqn:Eh; [|auto].
     destruct (length (queue w) <? cap c)%nat; [|auto].
     split; [|exact Epu].
-    apply (core_ext w); auto. cbn. intros [A|[c0 A]]; [|discriminate].
+    apply (core_ext w); auto. cbn. intros [A|[c0 [r0 A]]]; [|discriminate].
     rewrite has_disc_app in A. cbn in A. rewrite orb_false_r in A.
     apply orb_true_iff in A as [A|A]; [left; exact A|].
     right. destruct e; try discriminate. eauto. }
@@ -117,8 +117,8 @@ Qed.
 Lemma core_ext2 w w' :
   Core w -> trace w' = trace w -> st w' = st w -> flag w' = flag w ->
   (handed w = true -> handed w' = true) -> pump w' = pump w ->
-  (has_disc (queue w') = true \/ (exists c, hand w' = Some (CDisc c)) ->
-   has_disc (queue w) = true \/ (exists c, hand w = Some (CDisc c)) \/ handed w' = true) ->
+  (has_disc (queue w') = true \/ (exists c r, hand w' = Some (CDisc c r)) ->
+   has_disc (queue w) = true \/ (exists c r, hand w = Some (CDisc c r)) \/ handed w' = true) ->
   Core w'.
 Proof.
   intros [m [Hm [Hst [Hfl Hdq]]]] Ht Hs Hf Hh Hp Hq. exists m.
@@ -154,7 +154,7 @@ Proof.
     destruct (cap c =? 0)%nat eqn:Ecap.
     - destruct (client w) as [|e rest] eqn:Ecl.
       + injection Hd as <- <-. exact H.
-      + assert (H1 : Core (set_handed (handed w || match e with CDisc _ => true | _ => false end)
+      + assert (H1 : Core (set_handed (handed w || match e with CDisc _ _ => true | _ => false end)
                                        (set_client rest w))).
         { apply (core_ext2 w); auto; cbn.
           - intro A. rewrite A. reflexivity.
@@ -335,7 +335,7 @@ Proof.
   unfold op_recv. destruct (require_accepted w) eqn:E.
   - intro H. injection H as <- <-. eapply require_accepted_exc; eauto.
   - destruct (do_receive f c w) as [[[e|y]|u] w1] eqn:Ed; intro H; try discriminate.
-    + destruct k as [|[|k]]; destruct e; try discriminate; injection H as <- <-; exact I.
+    + destruct k as [|[|k]]; destruct e as [n b|n b|co rr]; try destruct b; cbn in H; try discriminate; injection H as <- <-; exact I.
     + injection H as <- <-. unfold do_receive, next_event in Ed.
       destruct (cap c =? 0)%nat.
       * destruct (client w) as [|e r]; [discriminate|].
